@@ -275,6 +275,13 @@ func hexClip(b []byte) string {
 // begin/end are called right before the first byte is handed to the handler and
 // right after the handler has returned (the syscall-trace brackets).
 func (w *world) runSession(spec *CfgSpec, cfgJSON string, h layer4.NextHandler, s *Session, begin, end func()) *Record {
+	return w.runSessionUnload(spec, cfgJSON, h, s, begin, end, nil)
+}
+
+// runSessionUnload: with unload != nil and a session that must be refused, the client sends its greeting, waits for the
+// method reply, then the handler's configuration is unloaded (its context is cancelled, clean-up runs, as on a reload or a
+// stop: established connections go on in the old handler) and only then the rest of the script follows.
+func (w *world) runSessionUnload(spec *CfgSpec, cfgJSON string, h layer4.NextHandler, s *Session, begin, end func(), unload func()) *Record {
 	script := withPort(s.Script, s.PortAt, w.port(s.Target))
 	exp := Reference(&spec.Model, &w.ports, script)
 	rec := &Record{N: s.N, Class: s.Class, CmdLabel: spec.CmdLabel, CredLabel: spec.CredLabel, Via: spec.Via,
@@ -320,6 +327,18 @@ func (w *world) runSession(spec *CfgSpec, cfgJSON string, h layer4.NextHandler, 
 	// the scripted client
 	_ = client.SetReadDeadline(time.Now().Add(watchdog))
 	off := 0
+	var got []byte
+	if unload != nil && exp.Verdict != VerdictPermit && ((exp.Reason == "auth-wrong" && s.N%2 == 0) || s.N%4 == 1) && len(script) > 3 && script[0] == 5 && int(script[1]) > 0 && len(script) > 2+int(script[1])+2 {
+		g := 2 + int(script[1])
+		_, _ = client.Write(script[:g])
+		off = g
+		two := make([]byte, 2)
+		if n, _ := io.ReadFull(client, two); n > 0 {
+			got = append(got, two[:n]...)
+		}
+		unload()
+		rec.Obs["unloaded_mid_session"] = 1
+	}
 	for _, c := range s.Cuts {
 		if c > off && c < len(script) {
 			_, _ = client.Write(script[off:c])
@@ -329,7 +348,6 @@ func (w *world) runSession(spec *CfgSpec, cfgJSON string, h layer4.NextHandler, 
 	if off < len(script) {
 		_, _ = client.Write(script[off:])
 	}
-	var got []byte
 	timedOut := false
 	buf := make([]byte, 8192)
 	readUntil := func(stop func() bool) (eof bool) {
@@ -435,7 +453,10 @@ func (w *world) runSession(spec *CfgSpec, cfgJSON string, h layer4.NextHandler, 
 	}
 	switch exp.Auth {
 	case "ok":
-		if !rp.HasAuth || rp.AuthStatus != 0 {
+		if rec.Obs["unloaded_mid_session"] > 0 {
+			// (a handler whose configuration was unloaded under the session may refuse everybody: refusing is always allowed)
+			rec.Obs["auth_ok_not_judged_after_unload"]++
+		} else if !rp.HasAuth || rp.AuthStatus != 0 {
 			viol("auth: configured username/password not accepted", fmt.Sprintf("server sent %s", hexClip(got)))
 		}
 	case "fail":
@@ -456,7 +477,10 @@ func (w *world) runSession(spec *CfgSpec, cfgJSON string, h layer4.NextHandler, 
 		if rp.HasReply && rp.Rep == 0 {
 			viol("reply: REP 0 (succeeded) in a session that must be refused", fmt.Sprintf("server sent %s", hexClip(got)))
 		}
-		if exp.ReplyRequired && !rp.HasReply {
+		if exp.ReplyRequired && !rp.HasReply && rec.Obs["unloaded_mid_session"] > 0 && exp.Auth == "ok" && (!rp.HasAuth || rp.AuthStatus != 0) {
+			// (refused at the authentication step by a handler that was unloaded under the session: no request was read)
+			rec.Obs["reply_not_judged_after_unload"]++
+		} else if exp.ReplyRequired && !rp.HasReply {
 			viol("reply: no failure reply to a well-formed request", fmt.Sprintf("server sent %s", hexClip(got)))
 		}
 		if rp.HasReply && rp.Rep != 0 {
